@@ -12,6 +12,7 @@ import TantivyModel.Proofs.DocSet.BufferedUnionFill
 import TantivyModel.Proofs.DocSet.Construct
 import TantivyModel.Proofs.DocSet.IntersectionScore
 import TantivyModel.Proofs.DocSet.BitSet
+import TantivyModel.Proofs.DocSet.Tree
 import TantivyModel.Model.DocSet.Tree
 /-!
 # C13 — every DocSet is one sorted sequence under any mix of advance and seek
@@ -457,6 +458,37 @@ theorem C13_intersection_score_path_independent (hA : Lawful A VA WA) (fx : Fix)
 
 end combinators
 
+/-! ### composition: whole scorer trees, as the driver builds and runs them -/
+
+/-- **Every scorer tree.** For every nesting depth `n`, the model the driver runs on the harness's
+trees (`levelDS fx n`: BufferedUnionScorer / SimpleUnion / Intersection / Exclude /
+RequiredOptionalScorer nodes, nested arbitrarily, over VecDocSet / BitSetDocSet leaves) is `Lawful`.
+States holding a `Disjunction` node are outside the valid-state relation (its proof is open). -/
+theorem C13_tree_lawful (fx : Fix) (n : Nat) :
+    Lawful (levelDS fx n) (LevelVW n).1 (LevelVW n).2 := (level_lawful fx n).1
+
+/-- from the tree description: whenever the description denotes the sorted list `l` (`Den`: leaves
+hold sorted lists, a union node denotes the union, an intersection node the common documents, an
+exclusion node the difference, a required/optional node its required part), `buildTree` — the
+constructors `BufferedUnionScorer::build`, `Intersection::new`, `Exclude::new`, … run bottom-up —
+succeeds, and every legal call program on the built scorer observes exactly the cursor over `l`. -/
+theorem C13_tree_program_equiv (fx : Fix) (n : Nat) (t : Tree) (l : List Nat) (hden : Den n t l)
+    (prog : List Op) (hlegal : legalProg ⟨l, none⟩ prog = true) :
+    ∃ s, buildTree fx n t = some s ∧ implRun (levelDS fx n) s prog = specRun ⟨l, none⟩ prog := by
+  obtain ⟨s, hs, hV⟩ := build_valid fx n t l hden
+  exact ⟨s, hs, C13_program_equiv _ _ _ (level_lawful fx n).1 prog s l hV hlegal⟩
+
+/-- end sticky for whole trees: a tree denoting the empty list answers every call program like the
+exhausted cursor -/
+theorem C13_tree_end_sticky (fx : Fix) (n : Nat) (t : Tree) (hden : Den n t [])
+    (prog : List Op) (hlegal : legalProg ⟨[], none⟩ prog = true) :
+    ∃ s, buildTree fx n t = some s ∧ implRun (levelDS fx n) s prog = specRun ⟨[], none⟩ prog :=
+  C13_tree_program_equiv fx n t [] hden prog hlegal
+
+/-- `score()` never moves a cursor, at any depth: it keeps valid and danger-zone states -/
+theorem C13_tree_score_keeps_state (fx : Fix) (n : Nat) :
+    ScoreOK (levelDS fx n) (LevelVW n).1 (LevelVW n).2 := (level_lawful fx n).2
+
 /-! ### Intersection and BufferedUnionScorer — open refinement statements
 
 OPEN (models tied by the correspondence run only; proofs not done):
@@ -608,6 +640,15 @@ example : implRun (BitSet.ds) (BitSet.init [1, 5, 70, 200] 256 1)
       [.doc, .advance, .seek 64, .seekDanger 100, .seek 300, .advance, .doc]
     = specRun ⟨[1, 5, 70, 200], none⟩ [.doc, .advance, .seek 64, .seekDanger 100, .seek 300, .advance, .doc] := by
   decide +kernel
+example : Den 1 (.sunion [.vec [1, 5] 1, .bits [5, 7] 8 1]) [1, 5, 7] := by
+  refine ⟨[[1, 5], [5, 7]], All2.cons ⟨rfl, ⟨by decide, by decide⟩, by unfold Small; decide⟩
+    (All2.cons ⟨rfl, ⟨by decide, by decide⟩, by decide, by unfold Small; decide⟩ All2.nil), ⟨by decide, by decide⟩, ?_⟩
+  intro x
+  simp only [List.mem_cons, List.mem_nil_iff, or_false, exists_eq_or_imp, exists_eq_left]
+  omega
+example : (buildTree {} 2 (.inter false [.bunion true [.vec [1, 5, 9] 1, .bits [5, 7] 8 2], .vec [5, 9, 11] 1])).map
+      (fun s => implRun (levelDS {} 2) s [.doc, .advance, .seekDanger 10, .doc])
+    = some (specRun ⟨[5, 9], none⟩ [.doc, .advance, .seekDanger 10, .doc]) := by decide +kernel
 example : Exclude.ok [[5, 7], [9]] 1 = true ∧ Exclude.ok [[5, 7], [9]] 9 = false := by decide
 example : Vec.V (Vec.init [1, 5, 9] 2) [1, 5, 9] := ⟨rfl, by
   refine ⟨by decide, ?_⟩
